@@ -32,7 +32,7 @@ func ParseR(x Sx) *R {
 	switch op {
 	case "nil", "testerror":
 		return &R{Op: op}
-	case "sentinel", "errno":
+	case "sentinel", "errno", "foreignerrno":
 		return &R{Op: op, I: []int64{num(0)}}
 	case "stdnew", "new", "pkgnew":
 		return &R{Op: op, S: []string{str(0)}}
@@ -54,6 +54,8 @@ func ParseR(x Sx) *R {
 		return &R{Op: op, Kids: []*R{kid(0)}, S: []string{str(1), str(2)}}
 	case "linkerror":
 		return &R{Op: op, Kids: []*R{kid(0)}, S: []string{str(1), str(2), str(3)}}
+	case "operror":
+		return &R{Op: op, Kids: []*R{kid(0)}, S: []string{str(1), str(2), str(3), str(4)}}
 	case "telemetry":
 		return &R{Op: op, Kids: []*R{kid(0)}, Strs: strs(1)}
 	case "tags":
